@@ -1,0 +1,158 @@
+//go:build verif
+
+// Contracts for the govc verifier (/verif). Comment-only: this file contains no code.
+package logger
+
+//@ spec fun p10(k int) int = k <= 0 ? 1 : (k == 1 ? 10 : (k == 2 ? 100 : (k == 3 ? 1000 : (k == 4 ? 10000 : (k == 5 ? 100000 : (k == 6 ? 1000000 : (k == 7 ? 10000000 : (k == 8 ? 100000000 : (k == 9 ? 1000000000 : (k == 10 ? 10000000000 : (k == 11 ? 100000000000 : (k == 12 ? 1000000000000 : (k == 13 ? 10000000000000 : (k == 14 ? 100000000000000 : (k == 15 ? 1000000000000000 : (k == 16 ? 10000000000000000 : (k == 17 ? 100000000000000000 : (k == 18 ? 1000000000000000000 : 10000000000000000000))))))))))))))))))
+//@
+//@ func hostport
+//@   props C20
+//@   ensures nopanic
+//@   ensures s == "" ==> host == "" && port == ""
+//@   ensures strings.LastIndexByte(s, ':') >= 0 ==> host + ":" + port == s
+//@   ensures strings.LastIndexByte(s, ':') >= 0 ==> strings.LastIndexByte(port, ':') < 0
+//@   ensures strings.LastIndexByte(s, ':') < 0 ==> host == s && port == ""
+//@
+//@ func atoi
+//@   props C20
+//@   requires b != nil && 0 <= pad && pad <= 100
+//@   assigns bufOf
+//@   ensures nopanic
+//@   ensures forall x *bytes.Buffer :: x != b ==> bufOf[x] == old(bufOf[x])
+//@   ensures len(bufOf[b]) >= len(old(bufOf[b])) + 1
+//@   loop 1 invariant 108 <= p && p <= 127 && (i < 0 ==> flag && p == 127) && (i >= 0 ==> i < p10(p-108)) && (p < 127 ==> i > 0)
+//@   loop 1 decreases p
+//@   loop 2 invariant 27 <= p && p <= 127 && (p <= 126 || flag)
+//@   loop 2 decreases p
+//@
+//@ func type:field
+//@   requires b != nil && e != nil && e.Response != nil && len(shortMonthNames) == 13
+//@   assigns bufOf
+//@   ensures nopanic
+//@   ensures forall x *bytes.Buffer :: x != b ==> bufOf[x] == old(bufOf[x])
+//@   ensures len(bufOf[b]) >= len(old(bufOf[b]))
+//@
+//@ func fields["$remote_addr"]
+//@   props C20
+//@   conforms type:field
+//@
+//@ func fields["$remote_host"]
+//@   props C20
+//@   conforms type:field
+//@
+//@ func fields["$remote_port"]
+//@   props C20
+//@   conforms type:field
+//@
+//@ func fields["$request"]
+//@   props C20
+//@   conforms type:field
+//@
+//@ func fields["$request_args"]
+//@   props C20
+//@   conforms type:field
+//@
+//@ func fields["$request_host"]
+//@   props C20
+//@   conforms type:field
+//@
+//@ func fields["$request_method"]
+//@   props C20
+//@   conforms type:field
+//@
+//@ func fields["$request_scheme"]
+//@   props C20
+//@   conforms type:field
+//@
+//@ func fields["$request_uri"]
+//@   props C20
+//@   conforms type:field
+//@
+//@ func fields["$request_url"]
+//@   props C20
+//@   conforms type:field
+//@
+//@ func fields["$request_proto"]
+//@   props C20
+//@   conforms type:field
+//@
+//@ func fields["$response_body_size"]
+//@   props C20
+//@   conforms type:field
+//@
+//@ func fields["$response_status"]
+//@   props C20
+//@   conforms type:field
+//@
+//@ func fields["$response_time_ms"]
+//@   props C20
+//@   conforms type:field
+//@
+//@ func fields["$response_time_us"]
+//@   props C20
+//@   conforms type:field
+//@
+//@ func fields["$response_time_ns"]
+//@   props C20
+//@   conforms type:field
+//@
+//@ func fields["$time_unix_ms"]
+//@   props C20
+//@   conforms type:field
+//@
+//@ func fields["$time_unix_us"]
+//@   props C20
+//@   conforms type:field
+//@
+//@ func fields["$time_unix_ns"]
+//@   props C20
+//@   conforms type:field
+//@
+//@ func fields["$time_common"]
+//@   props C20
+//@   conforms type:field
+//@
+//@ func fields["$time_rfc3339"]
+//@   props C20
+//@   conforms type:field
+//@
+//@ func fields["$time_rfc3339_ms"]
+//@   props C20
+//@   conforms type:field
+//@
+//@ func fields["$time_rfc3339_us"]
+//@   props C20
+//@   conforms type:field
+//@
+//@ func fields["$time_rfc3339_ns"]
+//@   props C20
+//@   conforms type:field
+//@
+//@ func fields["$upstream_addr"]
+//@   props C20
+//@   conforms type:field
+//@
+//@ func fields["$upstream_host"]
+//@   props C20
+//@   conforms type:field
+//@
+//@ func fields["$upstream_port"]
+//@   props C20
+//@   conforms type:field
+//@
+//@ func fields["$upstream_request_scheme"]
+//@   props C20
+//@   conforms type:field
+//@
+//@ func fields["$upstream_request_uri"]
+//@   props C20
+//@   conforms type:field
+//@
+//@ func fields["$upstream_request_url"]
+//@   props C20
+//@   conforms type:field
+//@
+//@ func fields["$upstream_service"]
+//@   props C20
+//@   conforms type:field
+//@
